@@ -82,7 +82,7 @@ Definition write_samples_to_file (c : cfg) (st : wstate) (sw : Z) (bl : list (Z 
     let nxt := file_start (F + c_fc c) (c_n c) (c_d c) in
     let left := nxt - K in
     let cap := nxt - file_start F (c_n c) (c_d c) in
-    let file_exists := match w_cur st with Some f => f =? F | None => false end in
+    let file_exists := match w_cur st with Some f => (f =? F) && w_open st | None => false end in
     match create_rf_data_index (c_start c) (w_gi st) (c_chunk c) (c_cont c) sw left cap bl vlen next file_exists with
     | None => (Fail, st)
     | Some (rows, stw) =>
@@ -101,9 +101,6 @@ Definition write_samples_to_file (c : cfg) (st : wstate) (sw : Z) (bl : list (Z 
             let nf := mkFile F true [] data0 cap (w_seq st + 1) in
             inr (mkW (w_gi st) (Some F) true (if c_chunk c then 0 else cap - left) 0 (w_seq st + 1)
                      (w_failed st) (files1 ++ [nf]))
-        else if negb (w_open st) then
-          (* C11: the name was committed by a refused creation; the handles are closed, H5Dwrite fails *)
-          inl (mkW (w_gi st) (w_cur st) false (w_di st) (w_nia st) (w_seq st) true (w_files st))
         else if c_chunk c then inr st
         else inr (mkW next (w_cur st) true (cap - left) (w_nia st) (w_seq st) (w_failed st) (w_files st)) in
       match r with
